@@ -674,6 +674,12 @@ class Interp:
             while inner.get("k") in ("Borrow", "Coerce", "Deref"):
                 inner = inner["e"]
             if inner.get("k") == "Var":
+                cur = env.get(inner["id"])
+                if (inner.get("ty") or "").startswith("&mut ") and isinstance(cur, Enum) and isinstance(val, Enum) and cur is not val:
+                    # a write through a `&mut` to a modelled aggregate: aggregates are shared by reference, so the place
+                    # the reference points into (a field of its parent, an element of a Vec) is this very object
+                    cur.adt, cur.variant, cur.fields = val.adt, val.variant, dict(val.fields)
+                    return
                 env[inner["id"]] = val
                 return
             raise Unknown("assignment through %r" % (target,))
@@ -1496,6 +1502,14 @@ class Interp:
             return {"starts_with": b.startswith(xb), "ends_with": b.endswith(xb), "contains": xb in b}[m]
         if gen in ("alloc::string::String::new", "alloc::string::String::with_capacity"):
             return ""
+        if gen in ("core::ptr::eq", "core::ptr::addr_eq"):
+            a_ = self.ev(args[0], env, depth)
+            b_ = self.ev(args[1], env, depth)
+            a_ = a_.get() if isinstance(a_, Ref) else a_
+            b_ = b_.get() if isinstance(b_, Ref) else b_
+            if isinstance(a_, (Enum, list, HMap, HSet)) and isinstance(b_, (Enum, list, HMap, HSet)):
+                return a_ is b_         # modelled aggregates are shared by reference: the same place is the same object
+            raise Unknown("ptr::eq on values that are not places")
         if gen in ("core::slice::raw::from_ref", "core::slice::from_ref", "core::array::from_ref"):
             v = self.ev(args[0], env, depth)
             return [v.get() if isinstance(v, Ref) else v]
@@ -1673,8 +1687,14 @@ class Interp:
         if gen == "core::ops::index::Index::index":
             base = self.ev(args[0], env, depth)
             i = self.ev(args[1], env, depth)
+            base = base.get() if isinstance(base, Ref) else base
             if isinstance(base, (list, tuple)) and isinstance(i, int) and 0 <= i < len(base):
                 return base[i]
+            if isinstance(base, HMap):
+                k_ = i.get() if isinstance(i, Ref) else i
+                if base.has(k_):
+                    return base.get(k_)
+                raise Unknown("core::panicking: HashMap index with a key that is not present")
             if isinstance(base, str) and isinstance(i, Enum) and i.adt in ("Range", "RangeFrom", "RangeTo", "RangeInclusive", "RangeToInclusive", "RangeFull"):
                 bb = base.encode("utf-8")
                 lo = i.fields.get("start", 0)
